@@ -1,8 +1,8 @@
 """Which units exist.  Verus units are modules with a UNIT; Kani units are defined below."""
-from units import u2_send, u3_recv, u23_roundtrip, u7_ipc, u6_router, u4_conv, u8_shm, u5_set, u6b_proxy, u9_ledger, u11_async, u10_oneshot, u12_ipcset, u13_inprocess
+from units import u2_send, u3_recv, u23_roundtrip, u7_ipc, u6_router, u4_conv, u8_shm, u5_set, u6b_proxy, u9_ledger, u11_async, u10_oneshot, u12_ipcset, u13_inprocess, u14_rxmodes
 from vf.kani import KaniUnit
 
-VERUS_UNITS = [u2_send.UNIT, u3_recv.UNIT, u23_roundtrip.UNIT, u7_ipc.UNIT, u6_router.UNIT, u4_conv.UNIT, u8_shm.UNIT, u5_set.UNIT, u6b_proxy.UNIT, u9_ledger.UNIT, u11_async.UNIT, u10_oneshot.UNIT, u12_ipcset.UNIT, u13_inprocess.UNIT]
+VERUS_UNITS = [u2_send.UNIT, u3_recv.UNIT, u23_roundtrip.UNIT, u7_ipc.UNIT, u6_router.UNIT, u4_conv.UNIT, u8_shm.UNIT, u5_set.UNIT, u6b_proxy.UNIT, u9_ledger.UNIT, u11_async.UNIT, u10_oneshot.UNIT, u12_ipcset.UNIT, u13_inprocess.UNIT, u14_rxmodes.UNIT]
 
 K_LEDGER = KaniUnit(
     name="k_ledger", harness_file="kani/harness_unix.rs", append_to="src/platform/unix/mod.rs",
